@@ -37,6 +37,8 @@ def main():
     seed = int(os.environ.get("VERIF_SEED", "0") or 0)
     t0 = time.time()
     mod = importlib.import_module("vf.props." + prop.lower())
+    if tier == "thorough":
+        os.environ.setdefault("VERIF_CROSSCHECK", "1")   # decisive queries are re-decided by a second solver (workers inherit)
     units = mod.units(tier)
     if a.only:
         units = [u for u in units if a.only in u.name]
